@@ -1,4 +1,5 @@
 import dis
+import re
 import yaml
 from typing import (
     Any,
@@ -40,6 +41,14 @@ from numba_scfg.core.datastructures.block_names import (
 )
 
 
+# The shapes of the names handed out by the NameGenerator.
+_GENERATED_NAME_PATTERNS = (
+    re.compile(r"^(.*)_block_(\d+)$", re.DOTALL),
+    re.compile(r"^(.*)_region_(\d+)$", re.DOTALL),
+    re.compile(r"^__scfg_(.*)_var_(\d+)__$", re.DOTALL),
+)
+
+
 @dataclass(frozen=True)
 class NameGenerator:
     """Unique Name Generator.
@@ -55,6 +64,25 @@ class NameGenerator:
     """
 
     kinds: dict[str, int] = field(default_factory=dict)
+
+    def reserve(self, name: str) -> None:
+        """Reserve a name that is already in use.
+
+        If the given name has the shape of a generated name, the index of its
+        kind is advanced past it, such that the name will never be handed out
+        by this generator.
+
+        Parameters
+        ----------
+        name: str
+            The name of an existing block, region or variable.
+        """
+        for pattern in _GENERATED_NAME_PATTERNS:
+            match = pattern.match(name)
+            if match:
+                kind, idx = match.group(1), int(match.group(2))
+                if self.kinds.get(kind, 0) <= idx:
+                    self.kinds[kind] = idx + 1
 
     def new_block_name(self, kind: str) -> str:
         """Generate a new unique name for a block of the specified kind.
@@ -175,6 +203,16 @@ class SCFG(Sized):
     region: RegionBlock = field(init=False, compare=False)
 
     def __post_init__(self) -> None:
+        # Names that are already present in the graph must not be handed out
+        # again, e.g. when the graph was read back or when the names of the
+        # given blocks have the shape of generated names.
+        for block_name, block in self.graph.items():
+            self.name_gen.reserve(block_name)
+            if isinstance(block, SyntheticAssignment):
+                for variable in block.variable_assignment:
+                    self.name_gen.reserve(variable)
+            elif isinstance(block, SyntheticBranch):
+                self.name_gen.reserve(block.variable)
         name = self.name_gen.new_region_name("meta")
         new_region = RegionBlock(
             name=name,
